@@ -24,7 +24,7 @@ CHECKS = {
         category="proof",
         text="2-run symmetry harness on the REAL clause texts of checkExpression (PLUS, MULT/MIN/MAX group, EQ, NEQ, AND, OR, BIT_* group, INLINE_IF) and the REAL getInlineIfCommonType / areInlineIfCompatible / areAssignmentCompatible / areEqCompatible / areEquivalent (top level): for arbitrary flat operand types A,B the clause is executed on (A,B) and (B,A); obligations: same acceptance, same result base kind. Complete over all base kinds x wrapper sets; record width <= 2.",
         design_ref="DESIGN.md section 4, C14",
-        note="Trusted: flat type abstraction (TYPE-IS); recursive calls of areEquivalent and isSameScalarType on sub-structures are answered by symmetric contracts (a symbolic symmetric matrix) - their symmetry on real type trees (reference/const wrapper sentence of the statement) is NOT yet under contract (needs the tree type stub). 'Kind' is read as the stripped kind. Known finding C14-KF1 (bool/int inline-if takes the first branch's kind).",
+        note="Trusted: flat type abstraction (TYPE-IS); recursive calls of areEquivalent and isSameScalarType on sub-structures are answered by symmetric contracts (a symbolic symmetric matrix) - part (B) puts the REAL isSameScalarType on REAL type nodes (type.cpp members over a raw pointer) under contract: symmetric and transparent to a REF/CONSTANT/SYSTEM_META wrapper on either side (one level; recursion by a symmetric contract). 'Kind' is read as the stripped kind. Known finding C14-KF1 (bool/int inline-if takes the first branch's kind).",
         technique="relational (2-run) contract on sliced real clause text, assume/call/assert harness in CBMC; native replay of both operand orders through parse_XTA",
     ),
     "C17": dict(
